@@ -2,11 +2,11 @@ package main
 
 import (
 	"fmt"
-	"sync"
 	"net"
 	"net/netip"
 	"strconv"
 	"strings"
+	"sync"
 
 	"pvharness/lib"
 )
